@@ -109,12 +109,22 @@ func scenUPL(s *sched.Sim, cfg Config, res *Result) {
 			decls = append(decls, "$f: Upload!")
 			roots = append(roots, "r1: mUpload(file: $f, tag: \"t\")"+sel("mUpload"))
 			u.fields = append(u.fields, "mUpload")
-		case 1: // list of uploads with a hole
-			f1, f2 := newFile(), newFile()
-			u.files = append(u.files, f1, f2)
-			u.vars["fs"] = []interface{}{nil, nil, nil}
-			addFileAt(f1, "variables.fs.0")
-			addFileAt(f2, "variables.fs.2")
+		case 1: // list of uploads with holes (leading, middle, trailing nulls)
+			ln := 2 + s.T.Choose(3)
+			lst := make([]interface{}, ln)
+			u.vars["fs"] = lst
+			any := false
+			for i := 0; i < ln; i++ {
+				if s.T.Bool(1, 2) || (i == ln-1 && !any) {
+					f := newFile()
+					u.files = append(u.files, f)
+					addFileAt(f, fmt.Sprintf("variables.fs.%d", i))
+					any = true
+				}
+			}
+			if lst[0] == nil && len(u.files) > 0 && u.files[0].paths[0] != "variables.fs.0" {
+				res.Probe("upl.list-with-leading-null")
+			}
 			decls = append(decls, "$fs: [Upload]")
 			roots = append(roots, "r1: mUploads(files: $fs)"+sel("mUploads"))
 			u.fields = append(u.fields, "mUploads")
@@ -134,6 +144,9 @@ func scenUPL(s *sched.Sim, cfg Config, res *Result) {
 					fallthrough
 				case 1:
 					l, _ := in["files"].([]interface{})
+					if len(l) == 0 && s.T.Bool(1, 3) {
+						l = append(l, nil) // stays null: a hole before the file
+					}
 					l = append(l, nil)
 					in["files"] = l
 					addFileAt(f, fmt.Sprintf("variables.in.files.%d", len(l)-1))
@@ -146,6 +159,10 @@ func scenUPL(s *sched.Sim, cfg Config, res *Result) {
 					fallthrough
 				case 3:
 					l, _ := in["inners"].([]interface{})
+					if len(l) == 0 && s.T.Bool(1, 3) {
+						// a null entry before the object that carries the file
+						l = append(l, nil)
+					}
 					l = append(l, map[string]interface{}{"doc": nil})
 					in["inners"] = l
 					addFileAt(f, fmt.Sprintf("variables.in.inners.%d.doc", len(l)-1))
